@@ -101,7 +101,9 @@ fn answer_serialize(body: &str) -> String {
             let name: proc_macro2::TokenTree = proc_macro2::TokenTree::Ident(proc_macro2::Ident::new("ops", proc_macro2::Span::call_site()));
             let r = catch_unwind(AssertUnwindSafe(|| crate::serialize::serialize(&name, stmts)));
             match r {
-                Ok(ts) => format!("ok {}", json_str(&toks(&ts))),
+                // raw Display of the token stream: collapsing whitespace would also collapse the spaces INSIDE byte-string literals
+                // (0x20 0x20 in the emitted bytes)
+                Ok(ts) => format!("ok {}", json_str(&ts.to_string())),
                 Err(_) => "panic \"serialize\"".into(),
             }
         }
